@@ -128,6 +128,22 @@ func loadProgram() (*Program, error) {
 	prog, spkgs := ssautil.AllPackages(pkgs, ssa.InstantiateGenerics)
 	prog.Build()
 	P := &Program{prog: prog, pkgs: map[string]*ssa.Package{}, harnessFns: map[string][]string{}, overlay: ov}
+	// EPSG table of the real wgs84 library (for the Code stub)
+	epsgCodes = nil
+	for _, sp := range prog.AllPackages() {
+		if sp.Pkg.Path() == "github.com/wroge/wgs84" {
+			if f := sp.Func("EPSG"); f != nil {
+				file := prog.Fset.Position(f.Pos()).Filename
+				if data, err := os.ReadFile(file); err == nil {
+					for _, m := range regexp.MustCompile(`(?m)^\s+(\d+):\s`).FindAllStringSubmatch(string(data), -1) {
+						var v int64
+						fmt.Sscan(m[1], &v)
+						epsgCodes = append(epsgCodes, v)
+					}
+				}
+			}
+		}
+	}
 	for _, sp := range spkgs {
 		if sp == nil {
 			continue
